@@ -40,8 +40,20 @@ func main() {
 	evid := flag.String("evidence", "", "evidence file to write")
 	knownPath := flag.String("known", "", "known findings file")
 	list := flag.Bool("list", false, "list registered properties")
+	dumpF := flag.Bool("dump-fields", false, "print the struct fields of the module (reference list for renamed fields)")
 	dump := flag.Bool("dump-funcs", false, "print the key of every function declared in the module (reference list for the inliner)")
 	flag.Parse()
+	if *dumpF {
+		pkgs, err := loadPkgs(*repo, "", nil)
+		if err != nil {
+			fmt.Fprintln(os.Stderr, err)
+			os.Exit(2)
+		}
+		for _, l := range dumpFields(pkgs) {
+			fmt.Println(l)
+		}
+		return
+	}
 	if *dump {
 		pkgs, err := loadPkgs(*repo, "", nil)
 		if err != nil {
@@ -139,7 +151,7 @@ func main() {
 			cfgInfo = append(cfgInfo, map[string]interface{}{
 				"tags": tags, "packages": len(p.Pkgs), "functions_total": len(p.All), "functions_module": len(p.Mod),
 				"callgraph": "VTA over CHA (golang.org/x/tools/go/callgraph/vta)", "load_s": p.LoadS, "ssa_s": p.SSAS, "callgraph_s": p.CGS,
-				"functions_not_in_reference_tree": p.Inlined, "inlining_failed": p.InlineFail,
+				"functions_not_in_reference_tree": p.Inlined, "inlining_failed": p.InlineFail, "renamed_anchors": append([]string{}, aliasNotes...),
 			})
 			if p.InlineFail != "" {
 				r.Note("source-level inlining of new helpers failed (%s): analysed without it", p.InlineFail)
